@@ -243,6 +243,55 @@ def annotate_closures(b, closures, g, where):
             raise Undecided("%s: closure #%d not found (function has %d closures)" % (where, k, len(spans)))
         ps, pe, bs, be, is_block = spans[k - 1]
         header, proof = closures[k]
+        # R4 keeps the closure's own parameter list: the names must agree, and a type the source spells out must be
+        # spelled the same way in the header (otherwise the header would silently change the code, e.g. the target
+        # type of a `try_into()` inferred from the parameter)
+        def _params(txt):
+            inner = txt.strip()
+            if not (inner.startswith("|") and "|" in inner[1:]):
+                return None
+            inner = inner[1:inner.index("|", 1)]
+            out = []
+            depth = 0
+            cur = ""
+            for ch in inner:
+                if ch in "(<[":
+                    depth += 1
+                elif ch in ")>]":
+                    depth -= 1
+                if ch == "," and depth == 0:
+                    out.append(cur)
+                    cur = ""
+                else:
+                    cur += ch
+            if cur.strip():
+                out.append(cur)
+            res = []
+            for q in out:
+                if ":" in q:
+                    nm, ty = q.split(":", 1)
+                    res.append((nm.strip(), re.sub(r"\s+", "", ty)))
+                else:
+                    res.append((q.strip(), None))
+            return res
+        src_params = _params(b[ps:pe])
+        hdr_params = _params(header)
+        if src_params is not None and hdr_params is not None:
+            plain = all(re.match(r"^(mut\s+)?[A-Za-z_][A-Za-z0-9_]*$", n) for n, _ in src_params)
+            if plain:
+                if [n for n, _ in src_params] != [n for n, _ in hdr_params] and not (len(src_params) == len(hdr_params) and all(h.startswith("verif_") or h == s_ or s_ == "_" for (s_, _), (h, _) in zip(src_params, hdr_params))):
+                    raise Undecided("%s: closure #%d: parameter names %r differ from the header's %r" % (where, k, [n for n, _ in src_params], [n for n, _ in hdr_params]))
+                for (sn, st), (hn, ht) in zip(src_params, hdr_params):
+                    if ht == "_":
+                        # `name: _` in the header: the parameter keeps the type the source spells out
+                        if st is None:
+                            raise Undecided("%s: closure #%d: parameter `%s` has no type in the source to take over" % (where, k, sn))
+                        m_ = re.search(r"\b%s\s*:\s*_" % re.escape(hn), header)
+                        src_ty = re.search(r"\b%s\s*:\s*([^,|]+)" % re.escape(sn), b[ps:pe]).group(1).strip()
+                        header = header[:m_.start()] + "%s: %s" % (hn, src_ty) + header[m_.end():]
+                        continue
+                    if st is not None and ht is not None and st != ht:
+                        raise Undecided("%s: closure #%d: parameter `%s` has type `%s` in the source but `%s` in the contract table" % (where, k, sn, st, ht))
         body = b[bs:be]
         if is_block:
             inner = body[1:-1]
